@@ -4,6 +4,7 @@ import (
 	"errors"
 	"fmt"
 	"log"
+	"math"
 	"os"
 	"path/filepath"
 	"sort"
@@ -203,8 +204,9 @@ func (db *DB) replayAndSetupWriteAheadLog() error {
 	}
 
 	walOpts, err := wal.NewWriteAheadLogOptions(wal.BasePath(walBasePath),
-		// we do manual rotation in lockstep with the memstore flushes, thus just set this super high to not trigger
-		wal.MaximumWalFileSizeBytes(db.memstoreMaxSize*100),
+		// we do manual rotation in lockstep with the memstore flushes, the WAL must never rotate on its own: a flush only
+		// deletes the WAL file of the rotation that triggered it, any other file would be replayed again on the next Open.
+		wal.MaximumWalFileSizeBytes(math.MaxUint64),
 		wal.WriterFactory(func(path string) (recordio.WriterI, error) {
 			return recordio.NewFileWriter(append(writerOpts, recordio.Path(path))...)
 		}),
